@@ -6,6 +6,7 @@
  * byte ranges of a file (qhashmd5_file). */
 #include "qlibc.h"
 #include "vh.h"
+#include <sys/mman.h>
 #include <stdlib.h>
 #include <string.h>
 #include <unistd.h>
@@ -106,6 +107,22 @@ int main(int argc, char **argv) {
                 vh_bprintf(&b, ",\"outs\":["); if (ok) seq(out, 16); vh_bprintf(&b, "]}"); vh_bflush(&b);
             }
             free(all);
+        }
+    }
+    /* one call over 2^29 bytes and more: the bit count MD5 appends no longer fits 32 bits.  The input is a never-written
+     * read-only mapping of zero pages; the digests of such inputs are constants of HashTrace.tla (taken from coreutils md5sum) */
+    if (shard == 1 % nsh) {
+        static const size_t Z[] = {536870911u, 536870912u, 536870975u};
+        void *z = mmap(NULL, 536870975u + 4096, PROT_READ, MAP_PRIVATE | MAP_ANONYMOUS | MAP_NORESERVE, -1, 0);
+        if (z != MAP_FAILED) {
+            for (size_t k = 0; k < 3; k++) {
+                unsigned char out[16]; memset(out, 0, 16);
+                vh_where = "md5zero"; vh_watchdog(120);
+                bool ok = qhashmd5(z, Z[k], out);
+                alarm(0);
+                vh_bprintf(&b, "{\"fn\":\"md5zero\",\"file\":false,\"zlen\":%zu,\"inp\":[],\"outs\":[", Z[k]); if (ok) seq(out, 16); vh_bprintf(&b, "]}"); vh_bflush(&b);
+            }
+            munmap(z, 536870975u + 4096);
         }
     }
     vh_close();
